@@ -230,6 +230,221 @@ theorem c01_plthook_return_stub (env : Env) (m : M) (hsp : m.gpr .rsp ≥ 4096)
     ExitOK env plthook_return "plthook_exit" pltRegs m := by
   exit_stub_proof plthook_return "plthook_exit" 72
 
+/-- What the PLT hook stub guarantees to the library function (or to the
+    dynamic linker's resolver) it forwards to: argument registers, rax and the
+    callee-saved registers are unchanged; if the C hook returned 0 control goes
+    to the resolver with the two PLT words still on the stack, otherwise to the
+    address the hook returned with those two words popped. -/
+def PltOK (env : Env) (m : M) : Prop :=
+  let Q := env.callee "plthook_entry" (exec env (pre plt_hooker) m)
+  (∀ r ∈ [Reg.rdi, .rsi, .rdx, .rcx, .r8, .r9, .rax, .rbx, .rbp, .r12, .r13, .r14, .r15],
+      (exec env plt_hooker m).gpr r = m.gpr r) ∧
+  (Q.gpr .rax = 0 → (exec env plt_hooker m).rip = env.resolver ∧ (exec env plt_hooker m).gpr .rsp = m.gpr .rsp) ∧
+  (Q.gpr .rax ≠ 0 → (exec env plt_hooker m).rip = Q.gpr .rax ∧ (exec env plt_hooker m).gpr .rsp = m.gpr .rsp + 16)
+
+set_option maxHeartbeats 1000000 in
+theorem c01_plt_hooker_stub (env : Env) (m : M) (hsp : m.gpr .rsp ≥ 4096)
+    (h : ABI (env.callee "plthook_entry") (m.gpr .rsp)) : PltOK env m := by
+  have hs : plt_hooker = pre plt_hooker ++ (.call "plthook_entry" :: post plt_hooker) := by rfl
+  have hal := align16_bounds (m.gpr .rsp - 48)
+  have hex : exec env plt_hooker m = exec env (post plt_hooker) (env.callee "plthook_entry" (exec env (pre plt_hooker) m)) := by
+    conv => lhs; rw [hs]
+    rw [exec_append, exec_cons]; rfl
+  unfold PltOK
+  rw [hex]
+  have p_rsp : (exec env (pre plt_hooker) m).gpr .rsp = align16 (m.gpr .rsp - 48) - 16 := by
+    simp (disch := omega) [pre, plt_hooker, exec_cons, step, mem_setM_eq, mem_setM_ne]
+    try omega
+  have p_top : (exec env (pre plt_hooker) m).mem (align16 (m.gpr .rsp - 48) - 16) = m.gpr .rax ∧
+      (exec env (pre plt_hooker) m).mem (align16 (m.gpr .rsp - 48) - 16 + 8) = m.gpr .rsp - 48 := by
+    constructor <;> simp (disch := omega) [pre, plt_hooker, exec_cons, step, mem_setM_eq, mem_setM_ne]
+  have p_cs : (exec env (pre plt_hooker) m).gpr .rbx = m.gpr .rbx ∧ (exec env (pre plt_hooker) m).gpr .rbp = m.gpr .rbp ∧
+      (exec env (pre plt_hooker) m).gpr .r12 = m.gpr .r12 ∧ (exec env (pre plt_hooker) m).gpr .r13 = m.gpr .r13 ∧
+      (exec env (pre plt_hooker) m).gpr .r14 = m.gpr .r14 ∧ (exec env (pre plt_hooker) m).gpr .r15 = m.gpr .r15 := by
+    simp (disch := omega) [pre, plt_hooker, exec_cons, step, mem_setM_eq, mem_setM_ne]
+  have q_rsp := h.rsp (exec env (pre plt_hooker) m)
+  have q_mem := h.mem (exec env (pre plt_hooker) m)
+  have q_rbx := (h.rbx (exec env (pre plt_hooker) m)).trans p_cs.1
+  have q_rbp := (h.rbp (exec env (pre plt_hooker) m)).trans p_cs.2.1
+  have q_r12 := (h.r12 (exec env (pre plt_hooker) m)).trans p_cs.2.2.1
+  have q_r13 := (h.r13 (exec env (pre plt_hooker) m)).trans p_cs.2.2.2.1
+  have q_r14 := (h.r14 (exec env (pre plt_hooker) m)).trans p_cs.2.2.2.2.1
+  have q_r15 := (h.r15 (exec env (pre plt_hooker) m)).trans p_cs.2.2.2.2.2
+  rw [p_rsp] at q_rsp q_mem
+  generalize env.callee "plthook_entry" (exec env (pre plt_hooker) m) = Q at *
+  have q_top0 : ∀ a, a = align16 (m.gpr .rsp - 48) - 16 → Q.mem a = m.gpr .rax := by
+    intro a ha; rw [q_mem a (by omega) (by omega), ha]; exact p_top.1
+  have q_top8 : ∀ a, a = align16 (m.gpr .rsp - 48) - 16 + 8 → Q.mem a = m.gpr .rsp - 48 := by
+    intro a ha; rw [q_mem a (by omega) (by omega), ha]; exact p_top.2
+  have e0 : Q.mem (m.gpr .rsp - 48 + 0) = (exec env (pre plt_hooker) m).mem (m.gpr .rsp - 48 + 0) := q_mem _ (by omega) (by omega)
+  simp (disch := omega) [pre, plt_hooker, exec_cons, step, mem_setM_eq, mem_setM_ne] at e0
+  have e8 : Q.mem (m.gpr .rsp - 48 + 8) = (exec env (pre plt_hooker) m).mem (m.gpr .rsp - 48 + 8) := q_mem _ (by omega) (by omega)
+  simp (disch := omega) [pre, plt_hooker, exec_cons, step, mem_setM_eq, mem_setM_ne] at e8
+  have e16 : Q.mem (m.gpr .rsp - 48 + 16) = (exec env (pre plt_hooker) m).mem (m.gpr .rsp - 48 + 16) := q_mem _ (by omega) (by omega)
+  simp (disch := omega) [pre, plt_hooker, exec_cons, step, mem_setM_eq, mem_setM_ne] at e16
+  have e24 : Q.mem (m.gpr .rsp - 48 + 24) = (exec env (pre plt_hooker) m).mem (m.gpr .rsp - 48 + 24) := q_mem _ (by omega) (by omega)
+  simp (disch := omega) [pre, plt_hooker, exec_cons, step, mem_setM_eq, mem_setM_ne] at e24
+  have e32 : Q.mem (m.gpr .rsp - 48 + 32) = (exec env (pre plt_hooker) m).mem (m.gpr .rsp - 48 + 32) := q_mem _ (by omega) (by omega)
+  simp (disch := omega) [pre, plt_hooker, exec_cons, step, mem_setM_eq, mem_setM_ne] at e32
+  have e40 : Q.mem (m.gpr .rsp - 48 + 40) = (exec env (pre plt_hooker) m).mem (m.gpr .rsp - 48 + 40) := q_mem _ (by omega) (by omega)
+  simp (disch := omega) [pre, plt_hooker, exec_cons, step, mem_setM_eq, mem_setM_ne] at e40
+  clear q_mem p_top p_cs hs hex
+  refine ⟨?_, ?_, ?_⟩
+  · intro r hr
+    cases r <;> first
+      | (exfalso; revert hr; decide)
+      | (simp (disch := omega) [post, plt_hooker, exec_cons, step, q_rsp, q_top0, q_top8, mem_setM_eq, mem_setM_ne,
+          q_rbx, q_rbp, q_r12, q_r13, q_r14, q_r15, *]
+         try (split <;> simp (disch := omega) [q_rbx, q_rbp, q_r12, q_r13, q_r14, q_r15, *]))
+  · intro h0
+    simp (disch := omega) [post, plt_hooker, exec_cons, step, q_rsp, q_top0, q_top8, mem_setM_eq, mem_setM_ne, h0, *]
+    try omega
+  · intro h0
+    simp (disch := omega) [post, plt_hooker, exec_cons, step, q_rsp, q_top0, q_top8, mem_setM_eq, mem_setM_ne, h0, *]
+    try omega
+
+/-- `__dentry__` (entry of dynamically patched functions): like the other
+    entry stubs, but control continues at the address `mcount_find_code`
+    returns (the saved copy of the patched instructions). -/
+def DentryOK (env : Env) (m : M) (dest : Nat) : Prop :=
+  (∀ r, r ≠ .rsp → (exec env dentry m).gpr r = m.gpr r) ∧
+  (exec env dentry m).gpr .rsp = m.gpr .rsp + 8 ∧
+  (exec env dentry m).rip = dest
+
+/-- instructions between the two calls of `__dentry__` -/
+def mid : List Instr := pre (post dentry)
+
+set_option maxHeartbeats 2000000 in
+theorem c01_dentry_stub (env : Env) (m : M) (hsp : m.gpr .rsp ≥ 4096)
+    (h1 : ABI (env.callee "mcount_entry") (m.gpr .rsp + 8))
+    (h2 : ABI (env.callee "mcount_find_code") (m.gpr .rsp + 8)) :
+    DentryOK env m
+      ((env.callee "mcount_find_code" (exec env mid (env.callee "mcount_entry" (exec env (pre dentry) m)))).gpr .rax) := by
+  have hs : dentry = pre dentry ++ (.call "mcount_entry" :: (mid ++ (.call "mcount_find_code" :: post (post dentry)))) := by rfl
+  have hal := align16_bounds (m.gpr .rsp - 48)
+  have hex : exec env dentry m = exec env (post (post dentry)) (env.callee "mcount_find_code"
+      (exec env mid (env.callee "mcount_entry" (exec env (pre dentry) m)))) := by
+    conv => lhs; rw [hs]
+    rw [exec_append, exec_cons, exec_append, exec_cons]; rfl
+  unfold DentryOK
+  rw [hex]
+  have p1_rsp : (exec env (pre dentry) m).gpr .rsp = align16 (m.gpr .rsp - 48) - 32 := by
+    simp (disch := omega) [pre, dentry, exec_cons, step, mem_setM_eq, mem_setM_ne]
+    try omega
+  have p1_cs : (exec env (pre dentry) m).gpr .rbx = m.gpr .rbx ∧ (exec env (pre dentry) m).gpr .rbp = m.gpr .rbp ∧
+      (exec env (pre dentry) m).gpr .r12 = m.gpr .r12 ∧ (exec env (pre dentry) m).gpr .r13 = m.gpr .r13 ∧
+      (exec env (pre dentry) m).gpr .r14 = m.gpr .r14 ∧ (exec env (pre dentry) m).gpr .r15 = m.gpr .r15 := by
+    simp (disch := omega) [pre, dentry, exec_cons, step, mem_setM_eq, mem_setM_ne]
+  have p1_R0 : (exec env (pre dentry) m).mem (align16 (m.gpr .rsp - 48) - 32 + 0) = m.gpr .r11 := by
+    simp (disch := omega) [pre, dentry, exec_cons, step, mem_setM_eq, mem_setM_ne]
+  have p1_R8 : (exec env (pre dentry) m).mem (align16 (m.gpr .rsp - 48) - 32 + 8) = m.gpr .r10 := by
+    simp (disch := omega) [pre, dentry, exec_cons, step, mem_setM_eq, mem_setM_ne]
+  have p1_R16 : (exec env (pre dentry) m).mem (align16 (m.gpr .rsp - 48) - 32 + 16) = m.gpr .rax := by
+    simp (disch := omega) [pre, dentry, exec_cons, step, mem_setM_eq, mem_setM_ne]
+  have p1_R24 : (exec env (pre dentry) m).mem (align16 (m.gpr .rsp - 48) - 32 + 24) = m.gpr .rsp - 48 := by
+    simp (disch := omega) [pre, dentry, exec_cons, step, mem_setM_eq, mem_setM_ne]
+  have p1_B0 : (exec env (pre dentry) m).mem (m.gpr .rsp - 48 + 0) = m.gpr .r9 := by
+    simp (disch := omega) [pre, dentry, exec_cons, step, mem_setM_eq, mem_setM_ne]
+  have p1_B8 : (exec env (pre dentry) m).mem (m.gpr .rsp - 48 + 8) = m.gpr .r8 := by
+    simp (disch := omega) [pre, dentry, exec_cons, step, mem_setM_eq, mem_setM_ne]
+  have p1_B16 : (exec env (pre dentry) m).mem (m.gpr .rsp - 48 + 16) = m.gpr .rcx := by
+    simp (disch := omega) [pre, dentry, exec_cons, step, mem_setM_eq, mem_setM_ne]
+  have p1_B24 : (exec env (pre dentry) m).mem (m.gpr .rsp - 48 + 24) = m.gpr .rdx := by
+    simp (disch := omega) [pre, dentry, exec_cons, step, mem_setM_eq, mem_setM_ne]
+  have p1_B32 : (exec env (pre dentry) m).mem (m.gpr .rsp - 48 + 32) = m.gpr .rsi := by
+    simp (disch := omega) [pre, dentry, exec_cons, step, mem_setM_eq, mem_setM_ne]
+  have p1_B40 : (exec env (pre dentry) m).mem (m.gpr .rsp - 48 + 40) = m.gpr .rdi := by
+    simp (disch := omega) [pre, dentry, exec_cons, step, mem_setM_eq, mem_setM_ne]
+  have p1_B48 : (exec env (pre dentry) m).mem (m.gpr .rsp - 48 + 48) = m.mem (m.gpr .rsp) := by
+    simp (disch := omega) [pre, dentry, exec_cons, step, mem_setM_eq, mem_setM_ne]
+  have q1_rsp := (h1.rsp (exec env (pre dentry) m)).trans p1_rsp
+  have q1_mem := h1.mem (exec env (pre dentry) m)
+  have q1_rbx := (h1.rbx (exec env (pre dentry) m)).trans p1_cs.1
+  have q1_rbp := (h1.rbp (exec env (pre dentry) m)).trans p1_cs.2.1
+  have q1_r12 := (h1.r12 (exec env (pre dentry) m)).trans p1_cs.2.2.1
+  have q1_r13 := (h1.r13 (exec env (pre dentry) m)).trans p1_cs.2.2.2.1
+  have q1_r14 := (h1.r14 (exec env (pre dentry) m)).trans p1_cs.2.2.2.2.1
+  have q1_r15 := (h1.r15 (exec env (pre dentry) m)).trans p1_cs.2.2.2.2.2
+  rw [p1_rsp] at q1_mem
+  generalize env.callee "mcount_entry" (exec env (pre dentry) m) = Q1 at *
+  have q1_R0 : ∀ a, a = align16 (m.gpr .rsp - 48) - 32 + 0 → Q1.mem a = m.gpr .r11 := by
+    intro a ha; rw [q1_mem a (by omega) (by omega), ha]; exact p1_R0
+  have q1_R8 : ∀ a, a = align16 (m.gpr .rsp - 48) - 32 + 8 → Q1.mem a = m.gpr .r10 := by
+    intro a ha; rw [q1_mem a (by omega) (by omega), ha]; exact p1_R8
+  have q1_R16 : ∀ a, a = align16 (m.gpr .rsp - 48) - 32 + 16 → Q1.mem a = m.gpr .rax := by
+    intro a ha; rw [q1_mem a (by omega) (by omega), ha]; exact p1_R16
+  have q1_R24 : ∀ a, a = align16 (m.gpr .rsp - 48) - 32 + 24 → Q1.mem a = m.gpr .rsp - 48 := by
+    intro a ha; rw [q1_mem a (by omega) (by omega), ha]; exact p1_R24
+  have q1_B0 : ∀ a, a = m.gpr .rsp - 48 + 0 → Q1.mem a = m.gpr .r9 := by
+    intro a ha; rw [q1_mem a (by omega) (by omega), ha]; exact p1_B0
+  have q1_B8 : ∀ a, a = m.gpr .rsp - 48 + 8 → Q1.mem a = m.gpr .r8 := by
+    intro a ha; rw [q1_mem a (by omega) (by omega), ha]; exact p1_B8
+  have q1_B16 : ∀ a, a = m.gpr .rsp - 48 + 16 → Q1.mem a = m.gpr .rcx := by
+    intro a ha; rw [q1_mem a (by omega) (by omega), ha]; exact p1_B16
+  have q1_B24 : ∀ a, a = m.gpr .rsp - 48 + 24 → Q1.mem a = m.gpr .rdx := by
+    intro a ha; rw [q1_mem a (by omega) (by omega), ha]; exact p1_B24
+  have q1_B32 : ∀ a, a = m.gpr .rsp - 48 + 32 → Q1.mem a = m.gpr .rsi := by
+    intro a ha; rw [q1_mem a (by omega) (by omega), ha]; exact p1_B32
+  have q1_B40 : ∀ a, a = m.gpr .rsp - 48 + 40 → Q1.mem a = m.gpr .rdi := by
+    intro a ha; rw [q1_mem a (by omega) (by omega), ha]; exact p1_B40
+  have q1_B48 : ∀ a, a = m.gpr .rsp - 48 + 48 → Q1.mem a = m.mem (m.gpr .rsp) := by
+    intro a ha; rw [q1_mem a (by omega) (by omega), ha]; exact p1_B48
+  clear q1_mem
+  -- between the calls: rdx := saved rsp, rdi := return address; nothing is stored
+  have hP2 : exec env mid Q1 = setR (setR Q1 .rdx (m.gpr .rsp - 48)) .rdi (m.mem (m.gpr .rsp)) := by
+    simp (disch := omega) [mid, post, pre, dentry, exec_cons, step, q1_rsp, q1_R0, q1_R8, q1_R16, q1_R24, q1_B0, q1_B8, q1_B16, q1_B24, q1_B32, q1_B40, q1_B48]
+  have q2_rsp := h2.rsp (exec env mid Q1)
+  have q2_mem := h2.mem (exec env mid Q1)
+  have q2_rbx := h2.rbx (exec env mid Q1)
+  have q2_rbp := h2.rbp (exec env mid Q1)
+  have q2_r12 := h2.r12 (exec env mid Q1)
+  have q2_r13 := h2.r13 (exec env mid Q1)
+  have q2_r14 := h2.r14 (exec env mid Q1)
+  have q2_r15 := h2.r15 (exec env mid Q1)
+  have p2_rsp : (exec env mid Q1).gpr .rsp = align16 (m.gpr .rsp - 48) - 32 := by
+    rw [hP2]; simp [q1_rsp]
+  rw [p2_rsp] at q2_rsp q2_mem
+  have p2_cs : (exec env mid Q1).gpr .rbx = m.gpr .rbx ∧ (exec env mid Q1).gpr .rbp = m.gpr .rbp ∧
+      (exec env mid Q1).gpr .r12 = m.gpr .r12 ∧ (exec env mid Q1).gpr .r13 = m.gpr .r13 ∧
+      (exec env mid Q1).gpr .r14 = m.gpr .r14 ∧ (exec env mid Q1).gpr .r15 = m.gpr .r15 := by
+    rw [hP2]; simp [q1_rbx, q1_rbp, q1_r12, q1_r13, q1_r14, q1_r15]
+  have p2_memeq : ∀ a, (exec env mid Q1).mem a = Q1.mem a := by
+    intro a; rw [hP2]; simp
+  rw [p2_cs.1] at q2_rbx; rw [p2_cs.2.1] at q2_rbp; rw [p2_cs.2.2.1] at q2_r12
+  rw [p2_cs.2.2.2.1] at q2_r13; rw [p2_cs.2.2.2.2.1] at q2_r14; rw [p2_cs.2.2.2.2.2] at q2_r15
+  generalize env.callee "mcount_find_code" (exec env mid Q1) = Q2 at *
+  have q2_R0 : ∀ a, a = align16 (m.gpr .rsp - 48) - 32 + 0 → Q2.mem a = m.gpr .r11 := by
+    intro a ha; rw [q2_mem a (by omega) (by omega), p2_memeq]; exact q1_R0 a ha
+  have q2_R8 : ∀ a, a = align16 (m.gpr .rsp - 48) - 32 + 8 → Q2.mem a = m.gpr .r10 := by
+    intro a ha; rw [q2_mem a (by omega) (by omega), p2_memeq]; exact q1_R8 a ha
+  have q2_R16 : ∀ a, a = align16 (m.gpr .rsp - 48) - 32 + 16 → Q2.mem a = m.gpr .rax := by
+    intro a ha; rw [q2_mem a (by omega) (by omega), p2_memeq]; exact q1_R16 a ha
+  have q2_R24 : ∀ a, a = align16 (m.gpr .rsp - 48) - 32 + 24 → Q2.mem a = m.gpr .rsp - 48 := by
+    intro a ha; rw [q2_mem a (by omega) (by omega), p2_memeq]; exact q1_R24 a ha
+  have q2_B0 : ∀ a, a = m.gpr .rsp - 48 + 0 → Q2.mem a = m.gpr .r9 := by
+    intro a ha; rw [q2_mem a (by omega) (by omega), p2_memeq]; exact q1_B0 a ha
+  have q2_B8 : ∀ a, a = m.gpr .rsp - 48 + 8 → Q2.mem a = m.gpr .r8 := by
+    intro a ha; rw [q2_mem a (by omega) (by omega), p2_memeq]; exact q1_B8 a ha
+  have q2_B16 : ∀ a, a = m.gpr .rsp - 48 + 16 → Q2.mem a = m.gpr .rcx := by
+    intro a ha; rw [q2_mem a (by omega) (by omega), p2_memeq]; exact q1_B16 a ha
+  have q2_B24 : ∀ a, a = m.gpr .rsp - 48 + 24 → Q2.mem a = m.gpr .rdx := by
+    intro a ha; rw [q2_mem a (by omega) (by omega), p2_memeq]; exact q1_B24 a ha
+  have q2_B32 : ∀ a, a = m.gpr .rsp - 48 + 32 → Q2.mem a = m.gpr .rsi := by
+    intro a ha; rw [q2_mem a (by omega) (by omega), p2_memeq]; exact q1_B32 a ha
+  have q2_B40 : ∀ a, a = m.gpr .rsp - 48 + 40 → Q2.mem a = m.gpr .rdi := by
+    intro a ha; rw [q2_mem a (by omega) (by omega), p2_memeq]; exact q1_B40 a ha
+  have q2_B48 : ∀ a, a = m.gpr .rsp - 48 + 48 → Q2.mem a = m.mem (m.gpr .rsp) := by
+    intro a ha; rw [q2_mem a (by omega) (by omega), p2_memeq]; exact q1_B48 a ha
+  clear q2_mem p2_memeq hP2 hs hex
+  refine ⟨?_, ?_, ?_⟩
+  · intro r hr
+    cases r <;>
+      simp (disch := omega) [post, dentry, exec_cons, step, q2_rsp, mem_setM_eq, mem_setM_ne,
+        q2_rbx, q2_rbp, q2_r12, q2_r13, q2_r14, q2_r15, q2_R0, q2_R8, q2_R16, q2_R24, q2_B0, q2_B8, q2_B16, q2_B24, q2_B32, q2_B40, q2_B48] at hr ⊢
+  · simp (disch := omega) [post, dentry, exec_cons, step, q2_rsp, mem_setM_eq, mem_setM_ne, q2_R0, q2_R8, q2_R16, q2_R24, q2_B0, q2_B8, q2_B16, q2_B24, q2_B32, q2_B40, q2_B48]
+    try omega
+  · simp (disch := omega) [post, dentry, exec_cons, step, q2_rsp, mem_setM_eq, mem_setM_ne, q2_R0, q2_R8, q2_R16, q2_R24, q2_B0, q2_B8, q2_B16, q2_B24, q2_B32, q2_B40, q2_B48]
+
 /-! ### Finding F3 (fixed): the exit stubs used to save xmm0 only -/
 
 /-- `mcount_return` as it was before the repair (96-byte frame, no xmm1 slot) -/
